@@ -24,7 +24,7 @@ func init() {
 	}
 }
 
-var c17Entries = []string{"VerifC17Tail", "VerifC17Mid"}
+var c17Entries = []string{"VerifC17Tail", "VerifC17Mid", "VerifC17End"}
 
 const feAdapter = `package PKG
 
@@ -103,6 +103,7 @@ func checkC17(c *Ctx) error {
 	for k := 0; k <= K; k++ {
 		jobs = append(jobs, &Job{PkgPath: pegPkg, Entry: "VerifC17Tail", Args: []int{k}, Label: "front-ends"})
 		jobs = append(jobs, &Job{PkgPath: pegPkg, Entry: "VerifC17Mid", Args: []int{k}, Label: "front-ends"})
+		jobs = append(jobs, &Job{PkgPath: pegPkg, Entry: "VerifC17End", Args: []int{k}, Label: "front-ends"})
 	}
 	cfg := symx.DefaultConfig()
 	cfg.ValidateEvery = 60
